@@ -36,3 +36,56 @@ Fixpoint join (sep : bytes) (l : list bytes) : bytes :=
 
 Definition show_option {A} (f : A -> bytes) (o : option A) : bytes :=
   match o with Some a => f a | None => str "none" end.
+
+(* ---- canonical dump of the decoded tree (keys, nesting, order, types, scalar values) ---- *)
+From TV Require Import Model.Datetime Model.Numbers Model.Tree.
+
+Definition show_date (d : date) : bytes :=
+  show_N (year d) ++ str "-" ++ show_N (month d) ++ str "-" ++ show_N (day d).
+Definition show_time (t : time) : bytes :=
+  show_N (hour t) ++ str ":" ++ show_N (minute t) ++ str ":" ++ show_N (second t) ++ str "." ++ show_N (nanosecond t).
+Definition show_offset (o : offset) : bytes :=
+  match o with OffZ => str "Z" | OffCustom m => str "C" ++ show_Z m end.
+Definition show_datetime (d : datetime) : bytes :=
+  str "dt(" ++ show_option show_date (d_date d) ++ str ";" ++ show_option show_time (d_time d)
+  ++ str ";" ++ show_option show_offset (d_offset d) ++ str ")".
+
+(* floats: the exact decimal; the differ turns `f:dec:<m>e<e>` into the bit pattern *)
+Definition show_fval (f : fval) : bytes :=
+  match f with
+  | FNan n => str "f:" ++ (if n then str "-nan" else str "nan")
+  | FInf n => str "f:" ++ (if n then str "-inf" else str "inf")
+  | FDec n m e => str "f:dec:" ++ (if n then str "-" else []) ++ show_N m ++ str "e" ++ show_Z e
+  end.
+
+Definition show_scalar (s : scalar) : bytes :=
+  match s with
+  | SString x => str "s:" ++ show_hex x
+  | SInt z => str "i:" ++ show_Z z
+  | SFloat f => show_fval f
+  | SBool b => str "b:" ++ show_bool b
+  | SDatetime d => show_datetime d
+  end.
+
+Fixpoint show_value (v : value) : bytes :=
+  match v with
+  | VScalar s _ _ => show_scalar s
+  | VArray vals _ _ _ _ =>
+    str "[" ++ join (str ",") (flat_map (fun it => match it with IValue e => [show_value e] | _ => [] end) vals) ++ str "]"
+  | VInline items _ _ _ _ _ =>
+    str "{" ++ join (str ",")
+                 (flat_map (fun kv => match kv with
+                                      | (k, IValue e) => [show_hex (k_key k) ++ str "=" ++ show_value e]
+                                      | _ => [] end) items) ++ str "}"
+  end.
+
+Fixpoint show_tbl (t : tbl) : bytes :=
+  match t with
+  | Tbl items _ _ _ _ _ =>
+    str "T{" ++ join (str ",")
+                  (flat_map (fun kv => match kv with
+                                       | (k, IValue e) => [show_hex (k_key k) ++ str "=" ++ show_value e]
+                                       | (k, ITable sub) => [show_hex (k_key k) ++ str "=" ++ show_tbl sub]
+                                       | (k, IAot ts _) => [show_hex (k_key k) ++ str "=A[" ++ join (str ",") (map show_tbl ts) ++ str "]"]
+                                       | (_, INone) => [] end) items) ++ str "}"
+  end.
